@@ -5,6 +5,7 @@ import (
 	"fmt"
 	"maps"
 	"reflect"
+	"sort"
 	"strings"
 )
 
@@ -929,9 +930,17 @@ func buildObjectFieldCache[T any](properties map[string]*PropertySchema) map[str
 		reflectType = reflectType.Elem()
 	}
 	// Two properties that resolve to the same field (one by its json tag, one by the field's name) would overwrite each
-	// other in the order in which the map of supplied values happens to be walked.
-	propertyOfField := make(map[string]string, len(properties))
+	// other in the order in which the map of supplied values happens to be walked. The same goes for a property mapped
+	// to a field inside the struct that another property is mapped to (an embedded struct and a field promoted from it):
+	// the index path of one field begins with the path of the other.
+	type mappedField struct{ path, propertyID string }
+	mappedFields := make([]mappedField, 0, len(properties))
+	propertyIDs := make([]string, 0, len(properties))
 	for propertyID := range properties {
+		propertyIDs = append(propertyIDs, propertyID)
+	}
+	sort.Strings(propertyIDs)
+	for _, propertyID := range propertyIDs {
 		field, ok := reflectType.FieldByNameFunc(func(s string) bool {
 			fieldType, _ := reflectType.FieldByName(s)
 			jsonTag := fieldType.Tag.Get("json")
@@ -957,20 +966,18 @@ func buildObjectFieldCache[T any](properties map[string]*PropertySchema) map[str
 				})
 			}
 		}
-		fieldPath := fmt.Sprint(field.Index)
-		if other, taken := propertyOfField[fieldPath]; taken {
-			first, second := other, propertyID
-			if second < first {
-				first, second = second, first
+		fieldPath := strings.Trim(fmt.Sprint(field.Index), "[]") + " "
+		for _, other := range mappedFields {
+			if strings.HasPrefix(fieldPath, other.path) || strings.HasPrefix(other.path, fieldPath) {
+				panic(BadArgumentError{
+					Message: fmt.Sprintf(
+						"Properties '%s' and '%s' are mapped to the same field, or to a field and a field inside it ('%s' of '%s')",
+						other.propertyID, propertyID, field.Name, reflectType.Name(),
+					),
+				})
 			}
-			panic(BadArgumentError{
-				Message: fmt.Sprintf(
-					"Properties '%s' and '%s' are both mapped to the field '%s' of '%s'",
-					first, second, field.Name, reflectType.Name(),
-				),
-			})
 		}
-		propertyOfField[fieldPath] = propertyID
+		mappedFields = append(mappedFields, mappedField{fieldPath, propertyID})
 		fieldCache[propertyID] = field
 	}
 	return fieldCache
